@@ -2,7 +2,7 @@
 //! Engine IN (build side): attribute lists x sealing combinations x header variants.
 
 use crate::common::*;
-use crate::engine_in::prog::{self, Op, Prog, RefBuilder};
+use crate::engine_in::prog::{self, Op, Prog, RefTree};
 use crate::engine_in::values;
 use crate::props::judge_guarded;
 use crate::real;
@@ -216,9 +216,49 @@ pub fn run(ctx: &Ctx) -> Report {
     }
     // (2d) an attribute type of the application's own (its own AttributeWrite implementation), value
     // lengths 0..=12, alone / between typed attributes / sealed / after into_owned
-    for l in 0..=12u8 {
-        for ops in [vec![Op::Custom(l)], vec![alpha[0].clone(), Op::Custom(l), alpha[6].clone()], vec![Op::Custom(l), Op::Sha1(0), Op::Sha256(0), Op::Fp], vec![Op::Custom(l), Op::IntoOwned, Op::Sha1(1), Op::Fp], vec![Op::Custom(l), Op::Custom((l + 1) % 13), Op::Measure, Op::Clone, Op::Fp]] {
-            cases2.push(Prog { class: (l % 4), method: 1, tid: tid0, ops }.to_case("build"));
+    // (and values around 256 / 763 / 1024 / 4096 bytes and of 65 000 bytes: nothing says an
+    // application's attribute is as short as the library's own)
+    for l in (0..=12u16).chain([13, 255, 256, 763, 764, 1016, 1017, 1020, 1021, 1024, 1025, 4095, 4096, 65_000]) {
+        let l2 = if l < 12 { l + 1 } else { 0 };
+        for ops in [vec![Op::Custom(l)], vec![alpha[0].clone(), Op::Custom(l), alpha[6].clone()], vec![Op::Custom(l), Op::Sha1(0), Op::Sha256(0), Op::Fp], vec![Op::Custom(l), Op::IntoOwned, Op::Sha1(1), Op::Fp], vec![Op::Custom(l), Op::Custom(l2), Op::Measure, Op::Clone, Op::Fp], vec![Op::Custom(l), Op::Clone, Op::IntoOwned, Op::Measure]] {
+            cases2.push(Prog { class: (l % 4) as u8, method: 1, tid: tid0, ops }.to_case("build"));
+        }
+    }
+    // (2f) an application attribute whose value the application changes after add_attribute (a value
+    // behind an atomic, filled in just before sending): whatever is serialised later carries the value
+    // of that moment, until into_owned takes a copy
+    for a in [0u16, 1, 3, 4, 5, 8, 12, 200, 1017] {
+        for b in [0u16, 1, 3, 4, 5, 8, 12, 200, 1017] {
+            for ops in [
+                vec![Op::AppMut(a), Op::Mutate(b)],
+                vec![alpha[0].clone(), Op::AppMut(a), Op::Measure, Op::Mutate(b), alpha[6].clone()],
+                vec![Op::AppMut(a), Op::Measure, Op::Mutate(b), Op::Sha1(0), Op::Sha256(0), Op::Fp],
+                vec![Op::AppMut(a), Op::Fork, Op::Mutate(b), Op::Measure, Op::Swap, Op::Fp],
+                vec![Op::AppMut(a), Op::Mutate(b), Op::IntoOwned, Op::Mutate(a), Op::Fp],
+                vec![Op::AppMut(a), Op::Clone, Op::Mutate(b), Op::Measure],
+            ] {
+                cases2.push(Prog { class: (a % 4) as u8, method: 1, tid: tid0, ops }.to_case("build"));
+            }
+        }
+    }
+    // (2g) a base builder kept beside the one that is sealed (clone, diverge, go back): what one of
+    // them serialised or sealed does not show in the other
+    for (i, l) in attr_lists(&alpha, 2).iter().enumerate() {
+        for s in sealings(0) {
+            if s.is_empty() {
+                continue;
+            }
+            let mut ops = l.clone();
+            ops.push(Op::Fork);
+            ops.extend(s.clone());
+            ops.push(Op::Measure);
+            ops.push(Op::Swap);
+            cases2.push(Prog { class: (i % 4) as u8, method: 1, tid: tid0, ops: ops.clone() }.to_case("build"));
+            // ... and the base sealed in its turn, with the other credentials
+            ops.push(Op::Sha1(1));
+            ops.push(Op::Measure);
+            ops.push(Op::Swap);
+            cases2.push(Prog { class: (i % 4) as u8, method: 1, tid: tid0, ops }.to_case("build"));
         }
     }
     // (2e) after a panic that was caught elsewhere in the process while the library serialised an
@@ -369,8 +409,9 @@ pub fn judge(case: &Case, acc: &mut Acc) {
         acc.outcome("skipped: value beyond the documented limits (not in-limit)");
         return;
     }
-    let mut rb = RefBuilder::new(p.class, p.method, p.tid);
-    let ref_accepts: Vec<bool> = p.ops.iter().map(|o| rb.apply(o)).collect();
+    let mut tree = RefTree::new(p.class, p.method, p.tid);
+    let ref_accepts: Vec<bool> = p.ops.iter().map(|o| tree.apply(o)).collect();
+    let rb = tree.cur;
     let built = match build_prog(&p) {
         Ok(b) => b,
         Err(_) => {
